@@ -414,6 +414,26 @@ Fixpoint wm_obs (pid : Z) (st : wmst) (ops : list sx) : list sx :=
 Fixpoint sx_wmops (l : list sx) : list wmop :=
   match l with [] => [] | o :: r => match sx_wmop o with Some op => op :: sx_wmops r | None => sx_wmops r end end.
 
+(* ---- one operand slice spread into several calls: (level, function, context) per call, the operands
+   shared.  A formatting step reads the operands and hands them back as they were -- the library
+   never writes into the caller's slice -- so the list is threaded through unchanged. *)
+Definition format_step (ts : bytes) (pid : Z) (args : list bytes) (c : Z * Z * lctx) : bytes * list bytes :=
+  let '(lvl, fn, cx) := c in
+  (call_line ts pid {| l_lvl := lvl; l_fn := fn; l_ctx := cx; l_args := args |}, args).
+Fixpoint log_history (ts : bytes) (pid : Z) (args : list bytes) (cs : list (Z * Z * lctx)) : list bytes * list bytes :=
+  match cs with
+  | [] => ([], args)
+  | c :: r => let (line, args') := format_step ts pid args c in
+              let (lines, args'') := log_history ts pid args' r in (line :: lines, args'')
+  end.
+Fixpoint sx_calls (l : list sx) : option (list (Z * Z * lctx)) :=
+  match l with
+  | [] => Some []
+  | SL [SZ lvl; SZ fn; SZ kind; SZ ref] :: r =>
+      match sx_calls r with Some t => Some ((lvl, fn, ctx_direct kind ref) :: t) | None => None end
+  | _ => None
+  end.
+
 Definition run_c18 (c : sx) : sx :=
   match c with
   | SL [SZ 1; SZ pid; SZ g0; SL ops] => SL (seq_ops pid g0 [] ops)
@@ -429,6 +449,18 @@ Definition run_c18 (c : sx) : sx :=
       let n' := Z.to_nat n in let m' := Z.to_nat m in
       let s := arun (ainit repo_skel 999 (repeat m' n')) (rr_sched n' (m' * length repo_skel)) in
       SL [SZ 0; snat (length (alog s)); SZ (count_dups (ids s))]
+  | SL [SZ 9; SZ pid; SL msgs; SL calls] =>
+      (* the same operand slice (spare capacity behind it) spread into consecutive calls:
+         (0 (line..) operands-unchanged) *)
+      match sx_bytes msgs, sx_calls calls with
+      | Some args, Some cs =>
+          let (lines, args') := log_history ts0 pid args cs in
+          SL [SZ 0; SL (map SB lines); sbool (if list_eq_dec (list_eq_dec N.eq_dec) args args' then true else false)]
+      | _, _ => bad_case
+      end
+  | SL [SZ 10; SZ n; SZ m; SL _] =>
+      (* n goroutines spread one shared operand slice into m calls each: (0 lines bad unchanged) *)
+      SL [SZ 0; SZ (n * m); SZ 0; SZ 1]
   | SL [SZ 8; SZ n; SZ m] =>
       (* n goroutines: a parent with id, then m derived creations (4 of 5 are fresh ids, 1 aliases the
          parent): (0 fresh-ids duplicates wrong-aliases) *)
